@@ -57,7 +57,8 @@ class Session(txstate.World):
         U0 = isl['FlatSchema'](f'U{idx}', modules=('default', 'std'))
         self.G0 = None
         self.dv = txstate.Driver(isl, U0)
-        self.m = txstate.Model(((f'U{idx}', frozenset(['default', 'std'])), isl['DEFAULT_ALIASES'], isl['EMPTY']))
+        self.m = txstate.Model(txstate.St((f'U{idx}', frozenset(['default', 'std'])), isl['DEFAULT_ALIASES'], isl['EMPTY']))
+        self.global_ddl = False
         self.flags = set()
         self.nserial = 0
         self.in_block_steps = 0
